@@ -177,6 +177,30 @@ func (pf *pfunc) condFacts(n *vn, truth bool, why string, fs *factSet, depth int
 		if !isIntType(x.typ) || !isIntType(y.typ) {
 			return
 		}
+		// uint(i) < uint(n) with n known non-negative: one comparison for 0 <= i < n (a negative i becomes
+		// a huge unsigned value)
+		{
+			a, b, t2 := x, y, tok
+			if t2 == token.GTR {
+				a, b, t2 = y, x, token.LSS
+			}
+			if t2 == token.LSS {
+				if sa, ok1 := signedUnderUnsignedConv(a); ok1 {
+					sb, ok2 := signedUnderUnsignedConv(b)
+					if !ok2 && b.op == "const" {
+						sb, ok2 = b, true
+					}
+					if ok2 {
+						if lo, _, ok := valueRange(sb); ok && lo.Sign() >= 0 {
+							la, lb := pf.linOf(sa), pf.linOf(sb)
+							fs.add(fact{l: la, why: why + " (unsigned comparison: the index is not negative)"})
+							fs.add(fact{l: lb.sub(la).addConst(-1), why: why + " (unsigned comparison)"})
+							return
+						}
+					}
+				}
+			}
+		}
 		lx, ly := pf.linOf(x), pf.linOf(y)
 		switch tok {
 		case token.LSS: // x < y  => y - x - 1 >= 0
@@ -224,9 +248,14 @@ func (pf *pfunc) condFacts(n *vn, truth bool, why string, fs *factSet, depth int
 			}
 			cands = append(cands, i)
 		}
-		if len(cands) > 1 && len(cands) <= 4 && depth < 4 {
+		if len(cands) > 1 && len(cands) <= 4 && depth < 4 && !pf.inPhiCond[ph] {
 			// several edges could have produced the value: those whose way in contradicts what is known
-			// here were not taken
+			// here were not taken (a flag carried round a loop is its own guard: not entered twice)
+			if pf.inPhiCond == nil {
+				pf.inPhiCond = map[*ssa.Phi]bool{}
+			}
+			pf.inPhiCond[ph] = true
+			defer delete(pf.inPhiCond, ph)
 			var live []int
 			for _, i := range cands {
 				tmp := &factSet{}
@@ -249,6 +278,14 @@ func (pf *pfunc) condFacts(n *vn, truth bool, why string, fs *factSet, depth int
 			return
 		}
 		cand = cands[0]
+		if pf.inPhiCond[ph] {
+			return
+		}
+		if pf.inPhiCond == nil {
+			pf.inPhiCond = map[*ssa.Phi]bool{}
+		}
+		pf.inPhiCond[ph] = true
+		defer delete(pf.inPhiCond, ph)
 		pred := ph.Block().Preds[cand]
 		pf.blockFacts(pred, fs)
 		pf.edgeFacts(pred, ph.Block(), fs)
@@ -279,6 +316,12 @@ func (pf *pfunc) inconsistent(fs *factSet) bool {
 	for _, f := range fs.facts {
 		if f.isnil != "" {
 			nils[f.isnil] = true
+			// a package-level error value that is set once, to a non-nil error, is not nil
+			if n := pf.byKey[f.isnil]; n != nil && n.op == "load" && len(n.args) == 1 && n.args[0].op == "global" {
+				if g, ok := n.args[0].val.(*ssa.Global); ok && pf.P.globalNonNil(g) {
+					return true
+				}
+			}
 		}
 	}
 	var rows []*lin
@@ -973,6 +1016,13 @@ func (pe *PEngine) postOf(fn *ssa.Function) *postCond {
 			okBlocks = append(okBlocks, b)
 			for k, r := range ret.Results {
 				if k != pc.errIdx && !valueNeverNil(r) {
+					// "if x == nil { return nil, Err }; ...; return x, nil": the guards on the way to this
+					// return show the value non-nil
+					if pointerLikeNilable(r.Type()) {
+						if cpf := pe.pf(fn); cpf.proveAt(b, pgoal{nonnil: cpf.get(r).key}, nil, 0) {
+							continue
+						}
+					}
 					pc.resNonNil[k] = false
 				}
 			}
@@ -1440,6 +1490,11 @@ func (pf *pfunc) implicitFacts(atoms map[string]*vn, fs *factSet) {
 				}
 			}
 		}
+		if a.op == "extract" && a.name == "0" && a.args[0].op == "call" && strings.HasPrefix(a.args[0].name, "io.ReadAtLeast") && len(a.args[0].args) == 3 {
+			// contract of io.ReadAtLeast: 0 <= n <= len(buf)
+			fs.add(fact{l: la, why: "io.ReadAtLeast returns n >= 0"})
+			fs.add(fact{l: pf.linOf(pf.mkLen(a.args[0].args[1])).sub(la), why: "io.ReadAtLeast returns n <= len(buf)"})
+		}
 		if a.op == "extract" && a.name == "0" && a.args[0].op == "call" && strings.HasPrefix(a.args[0].name, "io.ReadFull") && len(a.args[0].args) == 2 {
 			// contract of io.ReadFull: 0 <= n <= len(buf)
 			fs.add(fact{l: la, why: "io.ReadFull returns n >= 0"})
@@ -1685,7 +1740,14 @@ func (pf *pfunc) prove(g *lin, fs *factSet) bool {
 	rel := relevantFacts(g, fs)
 	neg := g.neg().addConst(-1)
 	rows := append([]*lin{neg}, rel...)
-	return fmInfeasible(rows)
+	res := fmInfeasible(rows)
+	if os.Getenv("VERIF_DEBUG") == "prove" && strings.Contains(funcName(pf.fn), os.Getenv("VERIF_TRACE")) {
+		fmt.Fprintf(os.Stderr, "prove %s >= 0: %v\n", descLin(g), res)
+		for _, r := range rows {
+			fmt.Fprintf(os.Stderr, "     row %s >= 0\n", r.String())
+		}
+	}
+	return res
 }
 
 // strengthenNeq: e != 0 together with e >= 0 gives e - 1 >= 0 (integers).
@@ -2628,4 +2690,31 @@ func (pf *pfunc) phiEdgeAtCall(sc *ssa.Function, ph *ssa.Phi, translate func(con
 		return ph.Edges[1]
 	}
 	return nil
+}
+
+// signedUnderUnsignedConv: n is uintK(s) for a signed integer s of the same width: s.
+func signedUnderUnsignedConv(n *vn) (*vn, bool) {
+	if n == nil || n.op != "conv" || len(n.args) != 1 {
+		return nil, false
+	}
+	tb, ok1 := n.typ.Underlying().(*types.Basic)
+	sb, ok2 := n.args[0].typ.Underlying().(*types.Basic)
+	if !ok1 || !ok2 || tb.Info()&types.IsUnsigned == 0 || sb.Info()&types.IsInteger == 0 || sb.Info()&types.IsUnsigned != 0 {
+		return nil, false
+	}
+	w := func(b *types.Basic) int {
+		switch b.Kind() {
+		case types.Int8, types.Uint8:
+			return 8
+		case types.Int16, types.Uint16:
+			return 16
+		case types.Int32, types.Uint32:
+			return 32
+		}
+		return 64
+	}
+	if w(tb) != w(sb) {
+		return nil, false
+	}
+	return n.args[0], true
 }
